@@ -17,6 +17,7 @@ import facts as F
 import grammar
 import graph as G
 import peg
+import mirutil as MU
 import sx
 from sx import C, S
 from common import Reporter
@@ -79,6 +80,7 @@ def run(tier):
     precedence(P, g, spec, rep)
     literals(P, g, spec, rep)
     evaluator(P, spec, rep)
+    identifier_rule(P, rep)
     return rep
 
 
@@ -227,11 +229,49 @@ def literals(P, g, spec, rep):
         late = [f["prefix"] for j, f in enumerate(found) if f["prefix"] and j > dec[0]]
         rep.ob("C05.lit|order", not late, "prefixed literal forms are tried before plain decimal" if not late else
                "the decimal alternative precedes %s: such literals would be read as decimal" % late)
+    char_literal(P, g, rep, "C05.lit|char")
+
+
+def identifier_rule(P, rep):
+    import rules_C10
+    rules_C10.bound_identifier_errors(P, rep, "C05.eval|identifier|no-other-error")
+
+
+def char_literal(P, g, rep, key):
     # char literal yields the code point: atom row `c:ch() { Expr::Const(c as i64) }`
     rows = g.prec_table("expr")
     chrow = [r2 for r2 in rows if r2["kind"] == "atom" and any(e[1] == ("call", "ch") for e in r2["elems"])]
     okch = len(chrow) == 1 and "Expr::Const" in peg.action_paths(chrow[0]["action"])[0] and "i64" in peg.action_paths(chrow[0]["action"])[0]
-    rep.ob("C05.lit|char", okch, "a character literal evaluates to its code point (c as i64)" if okch else "character literal row not of the form Expr::Const(c as i64)")
+    # ... and in the compiled action the character is widened to the value, never narrowed on the way (c as u8 as i64 would keep one byte)
+    narrow = []
+    ncast = 0
+    BITS = {"i8": 8, "u8": 8, "i16": 16, "u16": 16, "i32": 32, "u32": 32, "char": 32, "i64": 64, "u64": 64, "isize": 64, "usize": 64, "i128": 128, "u128": 128}
+    for k, b in P.body.items():
+        if not k.startswith("document::document::"):
+            continue
+        has_char_cast = False
+        casts = []
+        for bl in b["blocks"]:
+            for st in bl["stmts"]:
+                if st["k"] == "assign" and st["rv"]["k"] == "cast":
+                    pl = MU.op_place(st["rv"]["op"])
+                    src = P.tys(k, b["locals"][pl["local"]]["ty"]) if pl else "?"
+                    dst = P.tys(k, st["rv"]["ty"])
+                    casts.append((src, dst))
+                    if src == "char":
+                        has_char_cast = True
+        if has_char_cast:
+            for src, dst in casts:
+                if src in BITS and dst in BITS:
+                    ncast += 1
+                    if BITS[dst] < 32:
+                        narrow.append("%s as %s" % (src, dst))
+    okch2 = okch and ncast >= 1 and not narrow
+    rep.ob(key, okch2, "a character literal evaluates to its code point (c as i64, no narrowing cast in the compiled action)" if okch2 else
+           ("the action of the character literal narrows the value (%s): code points above the narrow type's range lose their upper bits" % ", ".join(narrow) if narrow else
+            "character literal row not of the form Expr::Const(c as i64)"))
+
+
 
 
 # ------------------------------------------------------------------------------------------------ 2. evaluator
